@@ -634,3 +634,18 @@ package larking
 //@   ensures [no-handler-after-refusal C15] refusals == 1 ==> hcalls == 0
 //@   ensures [one-snapshot C12] loads <= 1
 //@   assert at `msg := fmt.Sprintf("malformed grpc-timeout: %v", err)` [refuses-only-malformed-timeouts C15] !LegalTimeout(v)
+
+// Variables of a node are kept sorted by pattern text, so the order in which
+// search tries them is a function of the set of patterns, not of the
+// registration order (C02).
+//@ spec SortedVars(vs) = forall x :: {at(vs, x)} off(vs) <= x && x < off(vs) + len(vs) - 1 ==> !strlt(at(vs, x+1).name, at(vs, x).name)
+//@ func (*path).findVariable trusted pure
+//@   returns (v, ok)
+//@   ensures ok ==> v != nil
+//@ func newPath trusted pure
+//@   ensures result != nil
+//@ func (*path).addVariable serves C02
+//@   requires p != nil && SortedVars(p.variables)
+//@   modifies F$path.variables, E$P_variable
+//@   ensures [sorted C02] SortedVars(p.variables)
+//@   ensures [non-nil] result != nil
